@@ -2,6 +2,7 @@
 #define PARSENUM_H_
 
 #include <assert.h>
+#include <ctype.h>
 #include <errno.h>
 #include <inttypes.h>
 #include <math.h>
@@ -191,6 +192,16 @@ parsenum_unsigned(const char * s, uintmax_t min, uintmax_t max,
 		errno = EINVAL;
 	else if ((val < min) || (val > max) || (val > typemax))
 		errno = ERANGE;
+	else if (val != 0) {
+		/*
+		 * strtoumax() accepts "-N" and returns the negation of N
+		 * modulo UINTMAX_MAX + 1, which is not the number written.
+		 */
+		while (isspace((unsigned char)(*s)))
+			s++;
+		if (*s == '-')
+			errno = ERANGE;
+	}
 	return (val);
 }
 
